@@ -15,6 +15,8 @@ import (
 
 var usedSpecs = map[string]bool{}
 
+var doneChans = map[string]Term{}
+
 func reg(name string, f Intrinsic) {
 	intrinsics[name] = func(x *Exec, st *State, c *CallCtx) []Outcome {
 		usedSpecs[name] = true
@@ -92,6 +94,9 @@ func declCrypto(x *Exec) {
 
 func (x *Exec) evalSpecBuiltin(c *evalCtx, fn string, a []Val) (Val, bool, error) {
 	st := c.state()
+	if v, ok, err := x.rtSpec(st, fn, a); ok {
+		return v, true, err
+	}
 	declCrypto(x)
 	s := func(i int) Term { return x.bytesOf(st, a[i]) }
 	switch fn {
@@ -121,6 +126,10 @@ func (x *Exec) evalSpecBuiltin(c *evalCtx, fn string, a []Val) (Val, bool, error
 		return bval(app("isB64", SBool, s(0))), true, nil
 	case "b58":
 		return strV(app("b58", SStr, s(0))), true, nil
+	case "unb58":
+		return strV(app("unb58", SStr, s(0))), true, nil
+	case "isB58":
+		return bval(app("isB58", SBool, s(0))), true, nil
 	case "hmacSum":
 		return strV(app("hmacSum", SStr, s(0), s(1))), true, nil
 	case "wEncS":
@@ -279,7 +288,10 @@ func init() {
 	reg("strings.TrimPrefix", func(x *Exec, st *State, c *CallCtx) []Outcome {
 		s, p := c.Args[0].T, c.Args[1].T
 		r := Ite(app("str.prefixof", SBool, p, s), app("str.substr", SStr, s, StrLen(p), Sub(StrLen(s), StrLen(p))), s)
-		return one(st, strV(r))
+		// a consequence of the definition, stated for the solver: prefix ++ result == s when s has the prefix
+		rv := x.define(st, "trimmed", r)
+		st.assume(Implies(app("str.prefixof", SBool, p, s), Eq(app("str.++", SStr, p, rv), s)))
+		return one(st, strV(rv))
 	})
 	reg("strings.IndexByte", func(x *Exec, st *State, c *CallCtx) []Outcome {
 		ch := c.Args[1].T
@@ -306,7 +318,7 @@ func init() {
 			// predicates of the wrapped errors propagate
 			for _, wv := range x.variadicIfaces(st, c.Args[1]) {
 				if wv.GoT != nil && isErrorLike(wv) {
-					for _, p := range []string{"isNotFound", "isDuplicate", "isClosed"} {
+					for _, p := range []string{"isNotFound", "isDuplicate", "isClosed", "isCtxErr"} {
 						st.assume(Implies(x.errPred(p, wv.T), x.errPred(p, e.T)))
 					}
 				}
@@ -318,7 +330,7 @@ func init() {
 					ws = append(ws, wv.T)
 				}
 			}
-			for _, p := range []string{"isNotFound", "isDuplicate", "isClosed"} {
+			for _, p := range []string{"isNotFound", "isDuplicate", "isClosed", "isCtxErr"} {
 				any := BoolT(false)
 				for _, w := range ws {
 					any = Or(any, x.errPred(p, w))
@@ -326,7 +338,7 @@ func init() {
 				st.assume(Implies(x.errPred(p, e.T), any))
 			}
 		} else {
-			for _, p := range []string{"isNotFound", "isDuplicate", "isClosed"} {
+			for _, p := range []string{"isNotFound", "isDuplicate", "isClosed", "isCtxErr"} {
 				st.assume(Not(x.errPred(p, e.T)))
 			}
 		}
@@ -362,7 +374,7 @@ func init() {
 		e := x.fresh(st, "err!join", SInt)
 		st.assume(Ge(e, IntT(0)))
 		st.assume(Eq(Neq(e, IntT(0)), anyNN))
-		for _, p := range []string{"isNotFound", "isDuplicate", "isClosed"} {
+		for _, p := range []string{"isNotFound", "isDuplicate", "isClosed", "isCtxErr"} {
 			any := BoolT(false)
 			for _, w := range ws {
 				any = Or(any, And(Neq(w.T, IntT(0)), x.errPred(p, w.T)))
@@ -535,10 +547,20 @@ func init() {
 		reg(n, noop)
 	}
 	reg("iface:context.Context.Done", func(x *Exec, st *State, c *CallCtx) []Outcome {
-		return one(st, scalar(x.fresh(st, "donech", SInt), c.ResT.At(0).Type()))
+		// the done channel is a function of the context; neverCancelled(ctx) ==> it is never ready (see selectOp)
+		x.ufun("ctxDoneCh", []string{SInt}, SInt)
+		ch := app("ctxDoneCh", SInt, c.Args[0].T)
+		doneChans[ch.S] = c.Args[0].T
+		return one(st, scalar(ch, c.ResT.At(0).Type()))
 	})
 	reg("iface:context.Context.Err", func(x *Exec, st *State, c *CallCtx) []Outcome {
-		return one(st, x.newErr(st, "ctx"))
+		// (only called after Done was seen closed in this code base: non-nil, of the context kind)
+		e := x.newErrAny(st, "ctx")
+		for _, p := range []string{"isNotFound", "isDuplicate", "isClosed", "isTemporary"} {
+			st.assume(Not(x.errPred(p, e.T)))
+		}
+		st.assume(x.errPred("isCtxErr", e.T))
+		return one(st, e)
 	})
 }
 
